@@ -33,6 +33,12 @@ Definition flatten_arr (eshape : list Z) (a : arr Z) : list Z :=
 
 Definition roi_list_eqb := list_eqb zz_eqb.
 
+Definition dtype_eqb (a b : dtype) : bool :=
+  match a, b with
+  | DU x, DU y | DI x, DI y | DF x, DF y => x =? y
+  | _, _ => false
+  end.
+
 Inductive case :=
 | CBInit (bl : list ((Z * Z) * list Z)) (chy chx : list Z) (axis : Z) (expect : res (list Z))
 | CBNorm (bl : list ((Z * Z) * list Z)) (chy chx : list Z) (axis : Z) (roi : option (list someslice))
@@ -40,7 +46,8 @@ Inductive case :=
 | CBOutShape (bl : list ((Z * Z) * list Z)) (chy chx : list Z) (axis : Z) (roi : option (list someslice))
              (expect : res (list Z))
 | CBExtract (chy chx : list Z) (keys : list (Z * Z)) (estarts eshape : list Z)
-            (w : (Z * Z) * (Z * Z)) (fill : Z) (expect : res (list Z)).
+            (w : (Z * Z) * (Z * Z)) (fill : Z) (expect : res (list Z))
+| CBDtype (dts : list dtype) (f : fill_kind) (expect_init expect_extract : dtype).
 
 Definition check (c : case) : bool :=
   match c with
@@ -54,4 +61,6 @@ Definition check (c : case) : bool :=
               (t <- vt_init chy chx ;;
                rmap (flatten_arr esh)
                     (extract_yx (fun v => v) (add_starts es) t (map (mk_block chy chx) keys) fill w)) e
+  | CBDtype dts f e1 e2 =>
+      dtype_eqb (ba_dtype dts) e1 && dtype_eqb (ba_extract_dtype (ba_dtype dts) f) e2
   end.
